@@ -143,8 +143,15 @@ def _reach_from_entry_avoiding(f, target, avoid):
 
 
 def cmp_rule(ck, mod, label):
-    """inside check_tag: compare loop covers [0,size), accumulates every bit of tag1[i]^tag2[i] by OR,
-    fold maps {0} -> 0 and [1,255] -> -1; wipe loop covers [0,plaintext_len) with the verdict mask."""
+    """check_tag under the call-site constant size = 8 (R-C03-ARGS proves every call site passes 8):
+    symbolic evaluation in the GF(2)/OR term domain with the constant-trip compare loop followed; then
+      (1) find the last value D on the way to the result whose bits are pure ORs of difference bits
+          delta(i,j) = tag1[i].j xor tag2[i].j  (so D == 0 iff all those deltas are 0);
+      (2) the deltas OR-ed into D are exactly all 64;
+      (3) the fold D -> result is evaluated exhaustively over every realisable value of D: 0 -> 0, else -> -1.
+    If D's bits are not in OR form (e.g. an XOR accumulation) a low-weight witness search over the exact
+    term of the result decides: an accepted non-zero difference is a violation; otherwise unknown idiom."""
+    from .. import irx
     f = mod.fn(CT)
     names = [p["name"] for p in f.params]
     try:
@@ -152,106 +159,170 @@ def cmp_rule(ck, mod, label):
     except ValueError:
         raise Broken("anchor vanished: parameters of %s are %s" % (CT, names))
     where0 = relpath("%s:%d" % (f.file, f.line))
-    if len(f.loops) < 1:
-        raise Broken("%s has no compare loop: unrecognised idiom" % CT)
-    # identify loops by what they access
-    cmp_loop = wipe_loop = None
-    for L in f.loops:
-        ld = [I for I in f.insts if I.b in L["blocks"] and I.op == "load"]
-        st = [I for I in f.insts if I.b in L["blocks"] and I.op == "store"]
-        bases = {_scev_base(f, I.ops[0]) for I in ld}
-        if ("a", t1) in bases and ("a", t2) in bases and not st:
-            cmp_loop = L
-        if st and all(_scev_base(f, s.ops[1]) == ("a", pi) for s in st):
-            wipe_loop = L
-    if cmp_loop is None:
-        raise Broken("%s: cannot identify the compare loop: unrecognised idiom" % CT)
-    # ---- compare loop coverage
-    L = cmp_loop
-    btc = L["btc"]
-    okb = btc.get("k") == "u" and tuple(btc["v"]) == ("a", si)
-    ck.ob(okb, "R-C03-CMP", CT, "compare-trip-count[%s]" % label, "compare loop runs exactly `size` times (SCEV back-edge count = size)",
-          "compare loop runs %s times, not `size`" % L["btc_text"], where=where0)
-    loads = [I for I in f.insts if I.b in L["blocks"] and I.op == "load"]
-    per = {}
-    for I in loads:
-        P = f.inst(I.ops[0])
-        sc = P.get("scev") if P is not None else None
-        base = _scev_base(f, I.ops[0])
-        okp = bool(sc) and sc.get("k") == "rec" and sc["loop"] == L["header"] and sc["ops"][0].get("k") == "u" and sc["ops"][1].get("k") == "c" and sc["ops"][1]["v"] == "1"
-        unc = all(f.dominates_block(I.b, l) for l in L["latches"])
-        per[base] = (okp and unc and I.get("size") == 1, I)
-    for idx, nm in ((t1, "tag1"), (t2, "tag2")):
-        ok, I = per.get(("a", idx), (False, None))
-        ck.ob(ok, "R-C03-CMP", CT, "compare-reads-%s[%s]" % (nm, label), "%s[i] is read for every i in [0,size): address {%s,+,1}, one byte, every iteration" % (nm, nm),
-              "%s is not read at {%s,+,1} unconditionally in every iteration" % (nm, nm), where=relpath(I.where) if I else where0)
-    # ---- accumulation
-    accs = [I for I in f.insts if I.op == "phi" and I.b == L["header"] and I.bits == 32 and not (I.get("scev") or {}).get("k") == "rec"]
-    accs = [I for I in accs if any(tuple(x[0])[0] == "c" for x in I.get("inc"))]
-    if len(accs) != 1:
-        raise Broken("%s: cannot identify the accumulator phi (candidates=%d)" % (CT, len(accs)))
-    acc = accs[0]
-    init = [tuple(x[0]) for x in acc.get("inc") if x[1] not in L["blocks"]]
-    back = [tuple(x[0]) for x in acc.get("inc") if x[1] in L["blocks"]]
-    ck.ob(len(init) == 1 and init[0][0] == "c" and int(init[0][1]) == 0, "R-C03-CMP", CT, "accum-init[%s]" % label, "accumulator starts at 0",
-          "accumulator does not start at 0", where=where0)
-    if len(back) != 1:
-        raise Broken("%s: accumulator has %d back-edge values" % (CT, len(back)))
-    U = f.inst(back[0])
-    l1 = per.get(("a", t1), (False, None))[1]
-    l2 = per.get(("a", t2), (False, None))[1]
-    if U is None or l1 is None or l2 is None:
-        raise Broken("%s: accumulator update not found" % CT)
-    G = gf2.Gf2(f, leaf=lambda v: gf2.sym_word("acc", 32) if v == ("i", acc.id) else (gf2.sym_word("t1", 8) if v == ("i", l1.id) else (gf2.sym_word("t2", 8) if v == ("i", l2.id) else None)))
-    got = G.ev(("i", U.id))
-    accw = gf2.sym_word("acc", 32)
-    x = gf2.wzext(gf2.wxor(gf2.sym_word("t1", 8), gf2.sym_word("t2", 8)), 32)
-    want = gf2.wor(accw, x)
-    badbits = [i for i in range(32) if got[i] != want[i]]
-    ck.ob(not badbits, "R-C03-CMP", CT, "accum-update[%s]" % label,
-          "accum' = accum | zext(tag1[i] ^ tag2[i]) bit for bit (all 8 difference bits of every byte are kept)",
-          "accumulator update is not accum | (tag1[i] ^ tag2[i]): bit %s is %s, expected %s (a difference in that bit position goes unnoticed)"
-          % (badbits[0] if badbits else "?", gf2.describe(got[badbits[0]]) if badbits else "", gf2.describe(want[badbits[0]]) if badbits else ""),
-          where=relpath(U.where))
-    # ---- range of the accumulator after the loop (known bits fixpoint)
-    kb = rng.known_bits(f)
-    k = kb.get(("i", acc.id))
-    okr = k is not None and k.umax() <= 255
-    ck.ob(okr, "R-C03-CMP", CT, "accum-range[%s]" % label, "accumulator is in [0,255] (known-bits fixpoint: bits 8..31 zero)",
-          "accumulator range is not [0,255] (%s)" % (k,), where=where0)
-    # ---- fold: exhaustive over [0,255]
-    rets = f.rets()
-    if len(rets) != 1:
-        raise Broken("%s has %d returns" % (CT, len(rets)))
-    R = rets[0]
-    res = {}
-    maskv = {}
-    for a in range(256):
-        env = {("i", acc.id): a}
+
+    def handler(ex, p, I, callee, args):
+        raise Broken("%s calls %s: unrecognised idiom for a constant-time comparison" % (CT, callee))
+    ex = irx.Exec(f, handler, unroll=True, arg_consts={si: TAG, li: 0})
+    paths = ex.run()
+    rets = [p for p in paths if p.end[0] == "ret"]
+    datab = [e for p in paths for e in p.events if e[0] in ("cond-data",)]
+    if len(paths) != 1 or len(rets) != 1:
+        ck.bad("R-C03-CMP", CT, "single-path[%s]" % label,
+               "with size = 8 and no plaintext the function has %d paths: its control flow depends on the tag bytes (early exit?) - the comparison is not a fixed function evaluated uniformly"
+               % len(paths), where=where0)
+        return 1
+    p = rets[0]
+    R = p.end[1]
+    if not irx.is_word(R):
+        R = ex.word(R, 32, p)
+    A1, A2 = ("arg", t1), ("arg", t2)
+
+    def delta_of(xs):
+        """XOR-set {tag1[i].j, tag2[i].j} -> (i, j) or None"""
+        if len(xs) != 2:
+            return None
+        a, b = tuple(xs)
+        if a[0] != "v" or b[0] != "v":
+            return None
+        sa, sb = a[1], b[1]
+        if not (isinstance(sa, tuple) and isinstance(sb, tuple) and sa[0] == "mem" and sb[0] == "mem"):
+            return None
+        if {sa[1], sb[1]} != {A1, A2} or sa[2] != sb[2] or a[2] != b[2]:
+            return None
+        return (sa[2], a[2])
+
+    def orform(bit):
+        """set of deltas OR-ed in this bit, or None if not in OR form"""
+        if bit is gf2.TOP:
+            return None
+        if not bit:
+            return set()
+        d = delta_of(bit)
+        if d is not None:
+            return {d}
+        if len(bit) == 1:
+            (atom,) = tuple(bit)
+            if atom[0] == "|":
+                out = set()
+                for part in atom[1]:
+                    dd = delta_of(part)
+                    if dd is None:
+                        return None
+                    out.add(dd)
+                return out
+        return None
+
+    # candidates: values outside loops, latest first
+    cands = []
+    for I in reversed(f.insts):
+        k = ("i", I.id)
+        if k not in p.env or f.blocks[I.b].loop != -1 or not I.bits:
+            continue
+        v = p.env[k]
+        if not irx.is_word(v):
+            continue
+        forms = [orform(bit) for bit in v]
+        if all(x is not None for x in forms) and any(forms):
+            cands.append((I, forms))
+    # also loop-carried accumulators after the loop: phis in loop headers hold their final value in env
+    for I in reversed(f.insts):
+        k = ("i", I.id)
+        if I.op == "phi" and f.blocks[I.b].loop != -1 and k in p.env and irx.is_word(p.env[k]) and I.bits:
+            forms = [orform(bit) for bit in p.env[k]]
+            if all(x is not None for x in forms) and any(forms):
+                cands.append((I, forms))
+    alld = {(i, j) for i in range(TAG) for j in range(8)}
+
+    def fold_env(D, v):
+        env = {("i", D.id): v}
         for I in f.insts:
-            if f.blocks[I.b].loop != -1:
+            if f.blocks[I.b].loop != -1 or I.id == D.id:
                 continue
             if I.op in ("phi", "br", "ret", "call", "load", "store", "alloca", "getelementptr", "bitcast"):
                 continue
-            v = _eval(f, I, env)
-            if v is not None:
-                env[("i", I.id)] = v
-        rv = R.ops[0]
-        res[a] = int(rv[1]) if rv[0] == "c" else env.get(rv)
-        maskv[a] = dict(env)
-    ok0 = res.get(0) == 0
-    okn = all(res.get(a) == 0xFFFFFFFF for a in range(1, 256))
-    ck.ob(ok0, "R-C03-CMP", CT, "fold-accept[%s]" % label, "accum == 0 (all tag bytes equal) -> result 0",
-          "equal tags yield %s instead of 0" % (res.get(0),), where=relpath(R.where))
-    bad = [a for a in range(1, 256) if res.get(a) != 0xFFFFFFFF]
-    ck.ob(okn, "R-C03-CMP", CT, "fold-reject[%s]" % label, "every accum in [1,255] (any differing bit) -> result -1 (255 values, exhaustive)",
-          "accum = %s yields %s instead of -1: some wrong tags are accepted or mis-reported" % (bad[:3], [res.get(a) for a in bad[:3]]), where=relpath(R.where))
-    # ---- wipe (C04): coverage for every length/alignment class + value of every store
-    wipe_rule(ck, mod, f, label, pi, li, si, maskv, cmp_loop)
+            x = _eval(f, I, env)
+            if x is not None:
+                env[("i", I.id)] = x
+        return env
+    rets_i = f.rets()
+    Rv = rets_i[0].ops[0]
+    chosen = None
+    for (D, forms) in cands:
+        e0 = fold_env(D, 0)
+        r0 = int(Rv[1]) if Rv[0] == "c" else e0.get(Rv)
+        if r0 is not None:
+            chosen = (D, forms)
+            break
+    if chosen is None:
+        # not in OR form: exact-term witness search (tag1 = 0, tag2 = every pattern of weight 1 and 2)
+        import itertools
+        bits = [(("mem", A2, i), j) for i in range(TAG) for j in range(8)]
+        wit = None
+        unknown = False
+        for wgt in (1, 2):
+            for combo in itertools.combinations(bits, wgt):
+                asg = {c: 1 for c in combo}
+                memo = {}
+                val = [gf2.evaluate(bt, asg, memo) for bt in R]
+                if any(x is None for x in val):
+                    unknown = True
+                    break
+                if not any(val):
+                    wit = combo
+                    break
+            if wit or unknown:
+                break
+        if wit:
+            ck.bad("R-C03-CMP", CT, "accepts-wrong-tag[%s]" % label,
+                   "a tag that differs from the computed one in bit(s) %s is ACCEPTED (result 0): the differences are not OR-accumulated (they cancel)"
+                   % ", ".join("byte %d bit %d" % (c[0][2], c[1]) for c in wit), where=where0)
+            return 1
+        raise Broken("%s: the comparison result is not an OR-accumulation of tag differences and no low-weight counter-example exists: unrecognised idiom" % CT)
+    D, forms = chosen
+    U = set().union(*forms)
+    missing = sorted(alld - U)
+    extra = sorted(U - alld)
+    ck.ob(not missing, "R-C03-CMP", CT, "all-64-difference-bits[%s]" % label,
+          "the value '%s' at %s is zero iff all 64 difference bits tag1[i].j ^ tag2[i].j (i < 8, j < 8) are zero (pure OR of exactly those bits)" % (D.op, relpath(D.where)),
+          "a difference in %s goes unnoticed: the accumulated value does not depend on it" % ", ".join("byte %d bit %d" % m for m in missing[:6]), where=relpath(D.where))
+    ck.ob(not extra, "R-C03-CMP", CT, "only-tag-bits[%s]" % label, "only the 8 tag bytes enter the comparison", "bytes beyond the 8-byte tags enter the comparison: %s" % extra[:4], where=relpath(D.where))
+    # realisable values of D
+    nz = [j for j, fm in enumerate(forms) if fm]
+    if len(nz) > 16:
+        raise Broken("%s: accumulated difference has %d live bits: fold too wide to enumerate" % (CT, len(nz)))
+    envs = {}
+    nreal = 0
+    badacc, badrej = None, None
+    for mask_ in range(1 << len(nz)):
+        v = 0
+        ones, zeros = [], []
+        for t, j in enumerate(nz):
+            if mask_ >> t & 1:
+                v |= 1 << j
+                ones.append(j)
+            else:
+                zeros.append(j)
+        forced0 = set().union(*[forms[j] for j in zeros]) if zeros else set()
+        if any(not (forms[j] - forced0) for j in ones):
+            continue  # not realisable: a set bit whose deltas are all forced to 0
+        nreal += 1
+        e = fold_env(D, v)
+        envs[v] = e
+        r = int(Rv[1]) if Rv[0] == "c" else e.get(Rv)
+        if v == 0 and r != 0:
+            badacc = r
+        if v != 0 and r != 0xFFFFFFFF and badrej is None:
+            badrej = (v, r)
+    ck.ob(badacc is None, "R-C03-CMP", CT, "fold-accept[%s]" % label, "equal tags (accumulated difference 0) -> result 0", "equal tags yield %s instead of 0" % (badacc,), where=relpath(rets_i[0].where))
+    ck.ob(badrej is None, "R-C03-CMP", CT, "fold-reject[%s]" % label,
+          "every realisable non-zero accumulated difference (%d values, exhaustive) -> result -1" % (nreal - 1),
+          "accumulated difference %s yields %s instead of -1: some wrong tags are accepted or mis-reported" % (badrej or ("?", "?")), where=relpath(rets_i[0].where))
+    # constant control flow of the compare part is implied by the single path; the wipe is C04's
+    wipe_rule(ck, mod, f, label, pi, li, si, envs)
     return 1
 
 
-def wipe_rule(ck, mod, f, label, pi, li, si, maskv, cmp_loop):
+def wipe_rule(ck, mod, f, label, pi, li, si, envs):
     from .. import cov
     where0 = relpath("%s:%d" % (f.file, f.line))
     # (1) coverage: the stores to the plaintext buffer tile exactly [0, plaintext_len) in every (alignment, length) class
@@ -307,16 +378,16 @@ def wipe_rule(ck, mod, f, label, pi, li, si, maskv, cmp_loop):
             okm = True
             why = ""
             for (mv, k) in set(used_mask_bits):
-                v0 = maskv[0].get(mv)
-                if v0 is None or not (v0 >> k) & 1:
-                    okm, why = False, "mask bit %d is not 1 when the tags match" % k
-                for a in range(1, 256):
-                    va = maskv[a].get(mv)
-                    if va is None or (va >> k) & 1:
-                        okm, why = False, "mask bit %d is not 0 for accumulator value %d (a rejection)" % (k, a)
+                for a, env_a in envs.items():
+                    va = env_a.get(mv)
+                    if a == 0:
+                        if va is None or not (va >> k) & 1:
+                            okm, why = False, "mask bit %d is not 1 when the tags match" % k
+                    elif va is None or (va >> k) & 1:
+                        okm, why = False, "mask bit %d is not 0 for accumulated difference %d (a rejection)" % (k, a)
                         break
             ck.ob(okm, "R-C04-WIPE", CT, "wipe-mask#%s[%s]" % (_an(f, S), label),
-                  "every mask bit used is 1 on accept and 0 for each of the 255 non-zero accumulator values", "mask is wrong: %s" % why, where=relpath(S.where))
+                  "every mask bit used is 1 on accept and 0 for each realisable non-zero accumulated difference (%d values)" % (len(envs) - 1), "mask is wrong: %s" % why, where=relpath(S.where))
 
 
 def _an(f, I):
@@ -377,8 +448,9 @@ def run(ck, build, only_c04=False):
     ck.rule("R-C03-GUARD", "D-FIN on clen: classes 0..7 return a negative value before any load/store/call")
     ck.rule("R-C03-MUST", "for every clen class >= 8 every path returns exactly the result of the single check_tag call (no other return, no rewriting of the verdict)")
     ck.rule("R-C03-ARGS", "at the 6 call sites: size = 8; tag1 = 8-byte local filled by generate_tag on every path; tag2 = c + clen - 8 proven by affine cursor/length lock-step over all residues")
-    ck.rule("R-C03-CMP", "check_tag: SCEV coverage of tag1[i], tag2[i] for i in [0,size); accum' = accum | (tag1[i]^tag2[i]) at bit granularity (D-GF2); accum in [0,255] by known-bits fixpoint; "
-            "fold evaluated exhaustively on all 256 accumulator values: 0 -> 0, others -> -1")
+    ck.rule("R-C03-CMP", "check_tag under the call-site constant size = 8: symbolic evaluation in the GF(2)/OR term domain; the last pure value D on the way to the result is an OR of exactly "
+            "the 64 difference bits tag1[i].j ^ tag2[i].j (so D = 0 iff the tags are equal); the fold D -> result is evaluated exhaustively on every realisable value of D (0 -> 0, rest -> -1); "
+            "a non-OR accumulation is refuted by an explicit low-weight counter-example on the exact result term")
     ck.not_decided += ["the 2^-64 forgery bound", "sensitivity of the computed tag to every input bit (a property of the cipher; the mode structure is C02's)"]
     ck.assume("distinct pointer parameters do not overlap (except c == m); size_t arithmetic on lengths does not wrap")
     mod = Module(build.facts("H", "N0"))
@@ -401,7 +473,7 @@ def run(ck, build, only_c04=False):
         guard_and_must(sub, g, "fixture")
         args_rule(sub, fx, g, "fixture")
     got = {v["construct"].split("[")[0].split("(")[0] for v in sub.violations}
-    for want in ("accum-update", "short-input", "received-tag-position"):
+    for want in ("all-64-difference-bits", "short-input", "received-tag-position"):
         ck.control("c03_bad.c:" + want, want in got, "got %s" % sorted(got))
     ck.coverage_extra.update({"decrypt_functions": [f.name for f in fns], "clen_classes": n, "accumulator_values_folded": 256,
                               "exhaustive": True, "exhaustive_over": "clen classes w.r.t. compared constants; all 256 accumulator values; all call sites"})
